@@ -61,13 +61,64 @@ def shell(rng, l, K=None, M=None, typ=None, cen=None, lo=0.02, hi=None, bits=24,
         e = exponent(rng, lo, hi, bits)
         if e not in exps:
             exps.append(e)
-    return {
-        "l": l,
-        "center": cen if cen is not None else center(rng, span),
-        "exps": exps,
-        "coeffs": [[coeff(rng) for _ in range(M)] for _ in range(K)],
-        "type": typ,
-    }
+    cen = cen if cen is not None else center(rng, span)
+    coeffs = [[coeff(rng) for _ in range(M)] for _ in range(K)]
+    if M >= 2 and rng.random() < 0.4:
+        structure_coeffs(rng, coeffs)
+    sh = {"l": l, "center": cen, "exps": exps, "coeffs": coeffs, "type": typ}
+    if rng.random() < 0.2:
+        tabulate(sh, rng.choice([16, 20, 24]))
+    return sh
+
+
+def tabulate(sh, digits_bits=20):
+    """Rescale every coefficient column so that the contraction is normalised the way published tables are: to the printed
+    digits only (self-overlap 1 +- 1e-5 .. 1e-8, not exactly 1).  Uses the closed form of the self-overlap of a contraction
+    of normalised primitives, sum_ij c_i c_j (2 sqrt(a_i a_j) / (a_i + a_j))^(l + 3/2), the same for every component."""
+    ex = [val(e) for e in sh["exps"]]
+    p = sh["l"] + 1.5
+    for m in range(len(sh["coeffs"][0])):
+        c = [val(row[m]) for row in sh["coeffs"]]
+        S = sum(ci * cj * (2 * math.sqrt(a * b) / (a + b)) ** p for ci, a in zip(c, ex) for cj, b in zip(c, ex))
+        if not S > 1e-6:
+            continue
+        for k, row in enumerate(sh["coeffs"]):
+            row[m] = dyadic(c[k] / math.sqrt(S), digits_bits) if c[k] else [0, 0]
+
+
+def sibling(rng, sh, typ=None):
+    """A DIFFERENT shell over the same primitives: same centre, angular momentum, exponents and number (>= 2) of segmented
+    contractions, other coefficients -- a large general contraction stored as two shells.  `sh` gets M >= 2 if it had one."""
+    K = len(sh["exps"])
+    M = max(2, len(sh["coeffs"][0]))
+    if len(sh["coeffs"][0]) < M:
+        sh["coeffs"] = [[coeff(rng) for _ in range(M)] for _ in range(K)]
+    return {"l": sh["l"], "center": [list(c) for c in sh["center"]], "exps": [list(e) for e in sh["exps"]],
+            "coeffs": [[coeff(rng) for _ in range(M)] for _ in range(K)], "type": typ or sh["type"]}
+
+
+def structure_coeffs(rng, coeffs):
+    """Coefficient matrices as basis-set tables have them rather than dense random ones: exact zeros next to non-zero
+    entries in a row (a segmented basis stored as one generalized shell), rows whose entries cancel exactly (plus / minus
+    combinations of primitives), an all-zero row (a primitive no contraction uses).  Every column keeps a non-zero entry."""
+    K, M = len(coeffs), len(coeffs[0])
+    mode = rng.choice(["pad", "cancel", "both", "unused"])
+    if mode in ("pad", "both"):
+        for k in range(K):
+            if rng.random() < 0.7:
+                coeffs[k][rng.randrange(M)] = [0, 0]
+    if mode in ("cancel", "both"):
+        k = rng.randrange(K)
+        j1, j2 = rng.sample(range(M), 2)
+        c = coeff(rng)
+        coeffs[k] = [[0, 0] for _ in range(M)]
+        coeffs[k][j1], coeffs[k][j2] = c, [-c[0], c[1]]
+    if mode == "unused" and K >= 2:
+        coeffs[rng.randrange(K)] = [[0, 0] for _ in range(M)]
+    for j in range(M):
+        if all(coeffs[k][j][0] == 0 for k in range(K)):
+            rows = [k for k in range(K) if any(c[0] for c in coeffs[k])] or list(range(K))
+            coeffs[rng.choice(rows)][j] = coeff(rng)
 
 
 def spec_shell(sh):
